@@ -12,7 +12,7 @@ MCKeySeq == <<"k1", "k2">>
 MCKeySeq3 == <<"k1", "k2", "k3">>
 MCAllResets == AllResets
 MCCodeResets == CodeResets
-(* the code as it stands plus every repair but one: isolates one missing reset *)
+(* every reset but one: isolates one missing reset *)
 AllBut(m) == AllResets \ {m}
 MCAllButCache == AllBut("cache")
 MCAllButVlog == AllBut("vlog")
